@@ -7,6 +7,7 @@ import Driver.C09Gcd
 import Driver.C09Mxp
 import Driver.C09Smb
 import Driver.C09Mod
+import Driver.C09Pol
 
 namespace Driver.C09
 open Driver Relic.Model
@@ -306,6 +307,7 @@ def handleC (w cap digs : Nat) (op : String) (args : List String) (got : String)
 /-- modelled families first (class A); whatever they do not take falls through to the specification-only cases -/
 def handle (w cap digs : Nat) (op : String) (args : List String) (got : String) : Option Verdict :=
   (C09Gcd.handle w cap digs op args got) <|> (C09Mxp.handle w cap digs op args got) <|>
-  (C09Smb.handle w cap digs op args got) <|> (C09Mod.handle w cap digs op args got) <|> (handleC w cap digs op args got)
+  (C09Smb.handle w cap digs op args got) <|> (C09Mod.handle w cap digs op args got) <|> (C09Pol.handle w cap digs op args got) <|>
+  (handleC w cap digs op args got)
 
 end Driver.C09
